@@ -137,14 +137,15 @@ impl Net {
     /// if a recomputation had to be requested explicitly
     pub async fn barrier(&self, p: usize) -> bool {
         let mut natural = true;
-        for round in 0..400 {
+        for round in 0..15000 {
             let dirty: i64 = self
                 .sql(p, |c| c.query_row("SELECT count(*) FROM _daily_log WHERE need_recompute = 1", [], |r| r.get(0)).unwrap())
                 .await;
             if dirty == 0 {
                 return natural;
             }
-            if round == 100 {
+            if round == 1500 {
+                // the recomputation every write asks for did not arrive within 3 s: ask explicitly
                 natural = false;
                 self.peers[p].db.compute_daily_log().await;
             }
